@@ -16,6 +16,9 @@
 From Coq Require Import List Bool Arith.
 Import ListNotations.
 
+(* BitArray: bits, most significant first *)
+Notation path := (list bool) (only parsing).
+
 Section Trie1.
 Variable F : Type.                 (* felts / hash values *)
 Variable fzero : F -> bool.        (* felt.IsZero *)
@@ -24,7 +27,6 @@ Variable of_path : list bool -> F. (* BitArray.Felt() *)
 Variable add_len : F -> nat -> F.  (* felt addition of the path length *)
 Variable f0 : F.                   (* felt.Zero *)
 
-Definition path := list bool.
 
 (* trie.Node without the proof-only fields *)
 Record fnode := mk_fnode { nval : F; nleft : option path; nright : option path }.
